@@ -30,10 +30,28 @@ def main():
             first += "; neutralised by a later fix"
         rows.append(f"| {n} | {m['needs_to_manifest'][:170].replace('|', '/')} | {first} | {m['check_result'][:300].replace('|', '/')} |")
     seeds = "\n".join(rows)
+    # per-property summary of the first exposure
+    per = {}
+    for d in sorted(glob.glob(os.path.join(HERE, "seeded", "*", "meta.json"))):
+        m = json.load(open(d))
+        pid = os.path.basename(os.path.dirname(d)).split("-")[0]
+        t = per.setdefault(pid, [0, 0, 0])
+        t[0] += 1
+        t[1] += 0 if m["check_result"].startswith("MISSED") else 1
+        t[2] += 1 if m.get("status") == "neutralised" else 0
+    srows = ["| property | seeded changes | caught on first exposure | missed at first, caught after a widening | neutralised by a later fix |", "|---|---|---|---|---|"]
+    for pid in sorted(per):
+        a, b, c = per[pid]
+        srows.append(f"| {pid} | {a} | {b} | {a - b} | {c} |")
+    a, b, c = (sum(v[i] for v in per.values()) for i in range(3))
+    srows.append(f"| all | {a} | {b} | {a - b} | {c} |")
+    seedsum = "\n".join(srows)
     p = os.path.join(HERE, "DESIGN.md")
     s = open(p).read()
     s = block(s, "FINDINGS", findings)
     s = block(s, "SEEDS", seeds)
+    if "<!-- BEGIN SEEDSUM -->" in s:
+        s = block(s, "SEEDSUM", seedsum)
     open(p, "w").write(s)
     n_open = sum(1 for f in fs if f["status"] == "open")
     print(f"{len(fs)} findings ({n_open} open), {len(rows) - 2} seeds")
